@@ -154,7 +154,8 @@ def expected_atoms(state):
 LAYOUTS = ["one", "two", "three", "blank_ter", "blank_one_ter", "same_id_oxt",
            "lower",
            "neg", "high", "gap", "icode", "descending", "water_tail",
-           "hetero_tail", "hidden_end", "len2", "five", "digit_ids"]
+           "hetero_tail", "hidden_end", "len2", "five", "digit_ids",
+           "hetero_head"]
 
 
 def build_layout(layout, x, *, oxt=True):
@@ -190,7 +191,7 @@ def build_layout(layout, x, *, oxt=True):
         chains = [(seq, "A", [10, 10, 10], ["", "A", "B"])]
     elif layout == "descending":
         chains = [(seq, "A", [5, 4, 3], None)]
-    elif layout in ("water_tail", "hetero_tail"):
+    elif layout in ("water_tail", "hetero_tail", "hetero_head"):
         chains = [(seq, "A", nums(1), None)]
     elif layout == "hidden_end":
         chains = [(seq, "A", nums(1), None), (seq, "A", nums(4), None)]
@@ -223,6 +224,14 @@ def build_layout(layout, x, *, oxt=True):
         atoms.append(w)
         info.append({"kind": "wat", "input": "HOH", "position": None,
                      "chain": "A", "res_seq": 4, "icode": ""})
+    if layout == "hetero_head":
+        # an ion carrying the chain id, listed before the chain
+        atoms.insert(0, build.BAtom(name="ZN", res_name="ZN", chain="A",
+                                    res_seq=0, icode="",
+                                    xyz=np.array([12.0, 9.0, 9.0]),
+                                    record="HETATM", res_idx=-1))
+        info.append({"kind": "het", "input": "ZN", "position": None,
+                     "chain": "A", "res_seq": 0, "icode": ""})
     if layout == "hetero_tail":
         atoms.append(build.BAtom(name="ZN", res_name="ZN", chain="A",
                                  res_seq=4, icode="",
